@@ -5,8 +5,8 @@ import Knut.Proofs.Check
 /-!
 # `knut transcode`: `j.Process(Sort(), ComputePrices(v), check.Check(), Valuate(reg, v))` over a WHOLE journal
 
-The processor list is the one of `cmd/commands/transcode.go` (`execute`; the order is read off the source by hand here — there is no
-extracted constant for it as `balanceProcessorCalls` is for `knut balance`: a stated step).  `processAllTranscode` is its sequential
+The processor list is the one of `cmd/commands/transcode.go` (`execute`; the order was read off the source by hand here and is PINNED by
+`FactsAgree/ProcOrderTranscode`, `ProcOrder.transcodeOrder_eq`, against the list extracted from the source on every run).  `processAllTranscode` is its sequential
 meaning, `Pipeline.seqRun` of the system `transcodeSys` — four stages, stage `k` = the translated closures of the `k`-th processor folded
 over a day by `Processor.Process` (`TransProcess.processDay`), each on its own field of the record `TrGo`.  That `cpr.Seq` delivers
 `seqRun` on every successful schedule is `C19.C19_confluent` (`processAllTranscode_meaning`); `seqRun` as the meaning of
